@@ -706,6 +706,35 @@ def c19_serial(v, code, m, rnd):
         pass
     except Exception as e:
         return 'C19:pickle-raises:%s' % type(e).__name__
+    # the same after the tree has been USED: read-only API calls may fill per-tree caches, which must survive serialisation too
+    used = []
+    for name, call in (('get_used_names', lambda: m.get_used_names()), ('iter_errors', lambda: list(g.iter_errors(m))),
+                       ('iter_funcdefs', lambda: [f.get_params() for f in m.iter_funcdefs()]), ('iter_imports', lambda: [i.get_defined_names() for i in m.iter_imports()]),
+                       ('get_leaf_for_position', lambda: m.get_leaf_for_position((1, 0), include_prefixes=True)), ('get_code', lambda: m.get_code())):
+        if rnd.random() < 0.5:
+            try:
+                call()
+                used.append(name)
+            except Exception:
+                pass
+    if used:
+        if sig_tree(m) != s0:
+            return 'C19:tree-changed-by-read-only-calls'
+        try:
+            m4 = pickle.loads(pickle.dumps(m))
+            if sig_tree(m4) != s0 or not parents_ok(m4) or m4.get_code() != code:
+                return 'C19:pickle-differs-after-use'
+            leaf = m.get_first_leaf()
+            l4 = pickle.loads(pickle.dumps(leaf))
+            if (l4.type, l4.value, l4.prefix, l4.start_pos) != (leaf.type, leaf.value, leaf.prefix, leaf.start_pos):
+                return 'C19:pickle-leaf-differs-after-use'
+            m5 = eval(m.dump(), ns)
+            if sig_tree(m5) != s0:
+                return 'C19:eval-dump-differs-after-use'
+        except RecursionError:
+            pass
+        except Exception as e:
+            return 'C19:pickle-raises-after-use(%s):%s' % (used[0], type(e).__name__)
     if g.refactor(m, {}) != code:
         return 'C19:refactor-empty'
     chosen = {}
